@@ -145,7 +145,11 @@ func checkCase(raw json.RawMessage, c *mcase, base *vlib.Conc, idx int) {
 			if h.Dur != e.Dur {
 				run.Violate("header", "hdr.dur", fmt.Sprintf("perm %v duration %d want %d (sum)", perm, h.Dur, e.Dur), raw, base)
 			}
-			cs := func(x []string) string { y := append([]string{}, x...); sort.Strings(y); return strings.Join(y, "\x00") }
+			cs := func(x []string) string {
+				y := append([]string{}, x...)
+				sort.Strings(y)
+				return strings.Join(y, "\x00")
+			}
 			if cs(h.Comments) != cs(base.Strs(e.Comments)) {
 				run.Violate("header", "hdr.comments.set", fmt.Sprintf("perm %v comments %q want the set of %q", perm, h.Comments, e.Comments), raw, base)
 			}
@@ -165,6 +169,11 @@ func checkCase(raw json.RawMessage, c *mcase, base *vlib.Conc, idx int) {
 			}
 			if !vlib.ProjectFull(c1).Equal(vlib.ProjectFull(c2)) {
 				run.Violate("compact", "compact-not-idempotent", vlib.ProjectFull(c1).JSON()+" vs "+vlib.ProjectFull(c2).JSON(), raw, base)
+			}
+			// "nothing else is added": a stack that cancelled out leaves no location, function or mapping behind
+			if len(out.Location) != len(c1.Location) || len(out.Function) != len(c1.Function) || len(out.Mapping) != len(c1.Mapping) {
+				run.Violate("compact", "leftover-entities", fmt.Sprintf("the merge result holds %d/%d/%d locations/functions/mappings, of which only %d/%d/%d are referenced",
+					len(out.Location), len(out.Function), len(out.Mapping), len(c1.Location), len(c1.Function), len(c1.Mapping)), raw, base)
 			}
 			// inputs neither modified ...
 			for i := range ps {
@@ -406,7 +415,8 @@ func randomDriver() {
 		}
 		c1 := out.Compact()
 		c2 := c1.Compact()
-		ev.Compact = vlib.ProjectFull(c1).Equal(vlib.ProjectFull(c2)) && vlib.BagOf(ev.Out).Diff(vlib.BagOf(vlib.Project(c1))) == ""
+		ev.Compact = vlib.ProjectFull(c1).Equal(vlib.ProjectFull(c2)) && vlib.BagOf(ev.Out).Diff(vlib.BagOf(vlib.Project(c1))) == "" &&
+			len(out.Location) == len(c1.Location) && len(out.Function) == len(c1.Function) && len(out.Mapping) == len(c1.Mapping)
 		ev.Intact = true
 		for i := range ps {
 			if !vlib.ProjectFull(ps[i]).Equal(snaps[i]) {
